@@ -1,6 +1,7 @@
 #!/bin/bash
 # tools_seeded.sh <name> <worktree> <property> <demo-relative-path> <go test -run pattern> <pkg> "<needs>" : verify a seeded change and keep it under seeded/<name>/
 set -u
+export GOFLAGS=-mod=mod GOPROXY=off GOSUMDB=off GOTOOLCHAIN=local
 name=$1; wt=$2; prop=$3; demo=$4; pat=$5; pkg=$6; needs=$7
 out=/verif/seeded/$name; mkdir -p $out
 cd $wt || exit 2
@@ -9,24 +10,26 @@ cp $demo $out/$(basename $demo)
 cp SEEDED/NOTES.md $out/NOTES.md 2>/dev/null
 git checkout -q -- . 2>/dev/null
 git apply $out/patch.diff || { echo "patch does not apply"; exit 2; }
-go build ./... >/dev/null 2>&1; b=$?
-go test -vet=off -count=1 -run "$pat" $pkg >/tmp/seeded_with.log 2>&1; with=$?
+go1.26.8 build ./... >/dev/null 2>&1; b=$?
+go1.26.8 test -vet=off -count=1 -run "$pat" $pkg >/tmp/seeded_with.log 2>&1; with=$?
 # existing tests of the package with the change, demo moved aside
 mv $demo /tmp/demo_aside.go
-go test -vet=off -count=1 $pkg >/tmp/seeded_existing.log 2>&1; existing=$?
+go1.26.8 test -vet=off -count=1 $pkg >/tmp/seeded_existing.log 2>&1; existing=$?
 mv /tmp/demo_aside.go $demo
 git checkout -q -- . 
-go test -vet=off -count=1 -run "$pat" $pkg >/tmp/seeded_without.log 2>&1; without=$?
+go1.26.8 test -vet=off -count=1 -run "$pat" $pkg >/tmp/seeded_without.log 2>&1; without=$?
 git apply $out/patch.diff
-# the check
-cd /repo && git apply $out/patch.diff && (cd /verif && ./verifsim check $prop > /tmp/seeded_check.log 2>&1; echo $? > /tmp/seeded_check.rc); git checkout -q -- .
+# the check: run against the worktree itself (patch applied there), so /repo stays untouched
+# while other runs use it; VERIF_REPO builds into its own directory (verifsim header)
+(cd /verif && VERIF_REPO=$wt ./verifsim check $prop > /tmp/seeded_check_$name.log 2>&1; echo $? > /tmp/seeded_check.rc)
+cp /tmp/seeded_check_$name.log /tmp/seeded_check.log
 rc=$(cat /tmp/seeded_check.rc)
 viol=$(grep "^violation class" /tmp/seeded_check.log | head -1 | cut -c1-300)
 python3 - "$out" "$prop" "$needs" "$b" "$with" "$existing" "$without" "$rc" "$viol" "$demo" "$pat" "$pkg" <<'PY'
 import json,sys
 out,prop,needs,b,w,e,wo,rc,viol,demo,pat,pkg=sys.argv[1:]
 json.dump({"property":prop,"breaks":prop,"needs_to_manifest":needs,
- "demonstration":{"file":demo,"command":"go test -vet=off -count=1 -run '%s' %s"%(pat,pkg)},
+ "demonstration":{"file":demo,"command":"go1.26.8 test -vet=off -count=1 -run '%s' %s"%(pat,pkg)},
  "verified_by_me":{"builds_with_change":b=="0","demo_fails_with_change":w!="0","existing_package_tests_pass_with_change":e=="0","demo_passes_without_change":wo=="0"},
  "check_result":{"command":"./verifsim check %s (quick)"%prop,"exit":int(rc),"caught":rc=="1","violation":viol}},
  open(out+"/meta.json","w"),indent=1)
